@@ -524,6 +524,74 @@ func runDiscover(cause string) (line string) {
 	return fmt.Sprintf("ret %d after %d err %s ; done %d onclose 1 1 ; panics 0", returned, after, kind, done)
 }
 
+// runDiscoverUnserved (`case udp discover liveunserved <cancel|deadline|close>`): the "before send" point of a discovery - the
+// application issues the DiscoveryRequest before the server serves (the library lets it wait for Serve); Serve never comes.
+// The call must return when its context is cancelled / expires, and when the server is stopped (from three goroutines).
+func runDiscoverUnserved(cause string) (line string) {
+	defer func() {
+		if r := recover(); r != nil {
+			line = fmt.Sprintf("panic %v", r)
+		}
+	}()
+	s := udp.NewServer(options.WithErrors(func(error) {}))
+	base, baseCancel := context.WithCancel(context.Background())
+	defer baseCancel()
+	ctx, cancel := context.WithCancel(base)
+	deadlineIn := 150 * time.Millisecond
+	if cause == "deadline" {
+		ctx, cancel = context.WithTimeout(base, deadlineIn)
+	}
+	defer cancel()
+	start := time.Now()
+	retCh := make(chan error, 1)
+	var retAt atomic.Int64
+	go func() {
+		req := pool.NewMessage(ctx)
+		_ = req.SetupGet("/oic/res", message.Token{0xD9, 0x02})
+		req.SetMessageID(4712)
+		req.SetType(message.NonConfirmable)
+		err := s.DiscoveryRequest(req, "127.0.0.1:5683", func(*udpclient.Conn, *pool.Message) {})
+		retAt.Store(time.Now().UnixNano())
+		retCh <- err
+	}()
+	time.Sleep(40 * time.Millisecond)
+	var causeAt time.Time
+	switch cause {
+	case "cancel":
+		causeAt = time.Now()
+		cancel()
+	case "deadline":
+		causeAt = start.Add(deadlineIn)
+	case "close":
+		causeAt = time.Now()
+		for i := 0; i < 3; i++ {
+			go s.Stop()
+		}
+	default:
+		return "bad-op"
+	}
+	returned, kind := 0, "-"
+	var after int64 = -1
+	select {
+	case err := <-retCh:
+		returned, kind = 1, errKind(err)
+		after = retAt.Load() - causeAt.UnixNano()
+		if after < 0 {
+			after = 0
+		}
+	case <-time.After(1500 * time.Millisecond):
+	}
+	baseCancel()
+	s.Stop()
+	if returned == 0 {
+		select {
+		case <-retCh:
+		case <-time.After(2 * time.Second):
+		}
+	}
+	return fmt.Sprintf("ret %d after %d err %s ; done 1 onclose 1 1 ; panics 0", returned, after, kind)
+}
+
 // runServerCtxStop (`case udp srvstop k<N>x stop`): the datagram server got its context from the application
 // (options.WithContext) and is shut down by cancelling that context - Stop() is not called.  k raw peers have each sent one
 // request (so the server has a connection per peer); on every such connection the server has a request of its own in flight
